@@ -20,12 +20,13 @@ PROPS = {
         "with/without m/; other-base look-alikes; random paths of length 0..40 for the round trip; random mutations of printed paths",
    assumptions=["regexp leftmost-first semantics of `(\\d+)([H']?)` and strconv.ParseUint(s, 10, 31) modelled by their documented meaning (validated exhaustively on short strings)"],
    trusted_base=["Go regexp, strconv, strings, fmt modelled, not verified"]),
- "C15": P("C15",
+ "C15": P("C15", e2e="Iota.Tie.E2E.Merkle",
    rule="ops: merkle.gen (n generated leaves, optional erroring leaf), merkle.hash (explicit leaves incl. empty and erroring ones), merkle.empty. "
         "Every leaf count 0..600 (quick) / 0..4100 (thorough), 2^e-1, 2^e, 2^e+1 for e up to 13 / 17, SHA-256, BLAKE2b-256, SHA-512; an erroring leaf at "
-        "every position of every tree with <= 33 leaves; random small trees with several erroring/empty leaves; the harness also checks that inputs are not modified",
-   assumptions=["crypto.Hash instances are functions of the bytes written to them (H is an arbitrary function in the theorems)",
-                "n <= 2^63 (Go int)"],
+        "every position of every tree with <= 33 leaves; random small trees with several erroring/empty leaves; the harness also checks that inputs are not modified; every op is mirrored as gen.merkle.* and answered by the GENERATED Hasher.Hash / EmptyRoot",
+   assumptions=["hash.Hash contract: every New() returns a fresh object, Write never fails and appends, Sum(nil) is a function of the bytes written (hash_sum is an arbitrary function in the tie, H in the theorems)",
+                "MarshalBinary is a pure function of the element and does not panic (a leaf is modelled by its (bytes, error) result)",
+                "n < 2^63 (Go int)"],
    trusted_base=["Lean SHA-256/SHA-512/BLAKE2b-256 oracles in the driver (validated against the Go standard library by this very run)"]),
  "C04": P("C04", e2e=["Iota.Tie.E2E.Bech32", "Iota.Tie.E2E.Bech32Api"], tie="Iota.Tie.Bech32",
    rule="ops: bech32.dec. For every symbol count 0..84: random 5-bit symbol sequences with a CORRECT checksum in all 32 values of the last symbol (all padding patterns, every length residue mod 8); "
